@@ -2,7 +2,7 @@ SPECIFICATION Spec
 CONSTANTS
   Cfgs <- TB_Cfgs
   Soc0s <- SocAll
-  Dts <- Dt3
+  Dts <- Dt2
   Engs <- Bools
   ClsOn <- AllCls
   ClsOff <- BelOff
